@@ -6,7 +6,7 @@ use sudachi::dic::subset::InfoSubset;
 use sudachi::prelude::MorphemeList;
 
 use crate::dictgen::{self, DictOpts};
-use crate::env::Place;
+use crate::env::{self, Place};
 use crate::model::{Entry, Lexicon};
 use crate::report::{clip, guard, Report};
 use crate::rng::{fnv, Rng};
@@ -262,6 +262,73 @@ pub fn run(ctx: &Ctx, rep: &mut Report) {
                         rep.violation("lookup_panic", &p.site, &p.msg, "", json!({"world_index": wi, "key": String::from_utf8_lossy(key), "world": world.describe(false)}));
                         break;
                     }
+                }
+            }
+        }
+        // a text of more than 65,535 bytes (lookup itself has no length limit): matches near its end carry their true end offset
+        if !small && wi % 8 == 4 {
+            let filler = "ん".repeat(22_000);
+            let k1 = rng.pick(&keys[..]).clone();
+            let k2 = rng.pick(&keys[..]).clone();
+            let long = format!("{}{}{}", filler, k1, k2);
+            let bytes = long.as_bytes();
+            for off in [filler.len(), filler.len() + k1.len()] {
+                rep.eval();
+                let got = guard(|| {
+                    let mut v: Vec<(u8, u32, usize)> = lex.lookup(bytes, off).map(|e| (e.word_id.dic(), e.word_id.word(), e.end)).collect();
+                    v.sort();
+                    v
+                });
+                let mut exp: Vec<(u8, u32, usize)> = vec![];
+                for l in 1..=maxlen.min(bytes.len() - off) {
+                    if let Some(rows) = model.get(&bytes[off..off + l]) {
+                        for (d, r) in rows {
+                            exp.push((*d, *r, off + l));
+                        }
+                    }
+                }
+                exp.sort();
+                rep.count("lookups_beyond_65535_bytes", 1);
+                match got {
+                    Ok(g) if g == exp => {}
+                    Ok(g) => rep.violation("lookup_mismatch", "LexiconSet::lookup", &format!("text of {} bytes, offset {}: expected {:?}, got {:?}", bytes.len(), off, exp.iter().take(3).collect::<Vec<_>>(), g.iter().take(3).collect::<Vec<_>>()), "",
+                        json!({"world_index": wi, "text": format!("'ん' x 22000 + {:?} + {:?}", k1, k2), "offset": off, "world": world.describe(size_class < 2)})),
+                    Err(p) => rep.violation("lookup_panic", &p.site, &p.msg, "", json!({"world_index": wi, "offset": off})),
+                }
+            }
+        }
+        // the system lexicon compiled from two files (read_lexicon with paths, one call per file): the same dictionary bytes
+        if !small && size_class < 2 && wi % 8 == 6 {
+            use sudachi::dic::build::DictBuilder;
+            let rows: Vec<String> = world.sys.entries.iter().map(|e| world.sys.row_csv(e, None)).collect();
+            if rows.len() >= 2 {
+                let cut = 1 + rng.below(rows.len() - 1);
+                world.res.write("lex_b.csv", &(rows[..cut].join("\n") + "\n"));
+                world.res.write("lex_a.csv", &(rows[cut..].join("\n") + "\n"));
+                world.res.write("matrix.def", &world.matrix_text);
+                let r = guard(|| -> Result<Vec<u8>, String> {
+                    let mut b = DictBuilder::new_system();
+                    b.set_compile_time(std::time::UNIX_EPOCH + std::time::Duration::from_secs(env::FIXED_TIME_SECS));
+                    b.set_description(env::DESCRIPTION);
+                    b.read_conn(world.res.path.join("matrix.def").as_path()).map_err(|e| format!("{:?}", e))?;
+                    b.read_lexicon(world.res.path.join("lex_b.csv").as_path()).map_err(|e| format!("{:?}", e))?;
+                    b.read_lexicon(world.res.path.join("lex_a.csv").as_path()).map_err(|e| format!("{:?}", e))?;
+                    b.resolve().map_err(|e| format!("{:?}", e))?;
+                    let mut out = Vec::new();
+                    b.compile(&mut out).map_err(|e| format!("{:?}", e))?;
+                    Ok(out)
+                });
+                rep.eval();
+                match r {
+                    Ok(Ok(b)) => {
+                        rep.count("compilations_from_two_files_compared", 1);
+                        if b != world.sys_bytes {
+                            rep.violation("lookup_mismatch", "DictBuilder::read_lexicon(path)", &format!("the same rows read from two files give a dictionary of {} bytes that differs from the one compiled from memory ({} bytes): keys of the first file are not indexed as declared", b.len(), world.sys_bytes.len()), "",
+                                json!({"world_index": wi, "rows_in_first_file": cut, "world": world.describe(true)}));
+                        }
+                    }
+                    Ok(Err(e)) => rep.violation("lookup_mismatch", "DictBuilder::read_lexicon(path)", &format!("the rows compile from memory but not from two files: {}", clip(&e, 200)), "", json!({"world_index": wi})),
+                    Err(p) => rep.violation("lookup_panic", &p.site, &p.msg, "", json!({"world_index": wi, "stage": "compile from files"})),
                 }
             }
         }
